@@ -84,3 +84,16 @@ Example C04_names_example :
   map render (gen_take [[18; 0]; [1]] 4) = ["a"; "c"; "d"; "e"]%string            (* "as" and "b" reserved *)
   /\ nth 26 (map render (gen_take [[18; 0]] 30)) ""%string = "aa"%string /\ nth 44 (map render (gen_take [[18; 0]] 50)) ""%string = "at"%string.
 Proof. vm_compute. repeat split; reflexivity. Qed.
+
+(* the loop that names the groups of variables (regenerated shape: a group with exactly one hint takes it, every other group takes
+   the next name of the stream): the groups WITHOUT a hint get pairwise different names, none of which is reserved - in particular
+   none equals a hinted name, since compile() puts every hinted name into the reserved set (gen_reserved_holds_keywords_builtins_hints) *)
+Theorem C04_groups_without_a_hint_get_fresh_names : forall (L : list word) (hints : list (option word)),
+  let names := name_groups hints (gen_take L (count_none hints)) in
+  NoDup (picks hints names) /\ forall o, In o (picks hints names) -> exists x, o = Some x /\ ~ In x L.
+Proof. exact groups_without_hint_get_fresh_names. Qed.
+Print Assumptions C04_groups_without_a_hint_get_fresh_names.
+
+Theorem C04_naming_rules_as_in_the_source :
+  gen_names_skip_reserved = true /\ gen_reserved_holds_keywords_builtins_hints = true /\ gen_group_takes_its_single_hint_else_next_name = true.
+Proof. repeat split; reflexivity. Qed.
